@@ -334,9 +334,18 @@ def build(tier, rng):
         ("custom.plaintext", CryptContext(["plaintext"])),
         ("custom.ldap", CryptContext(["ldap_salted_sha1", "ldap_plaintext"])),
         ("custom.postgres(user kw)", CryptContext(["md5_crypt", "postgres_md5"])),
+        # the dummy verification hashes a fixed 16-character secret with the DEFAULT scheme and no context keywords:
+        # default schemes that need a user name, or refuse long passwords, are the classes where that can fail
+        ("needs-user.postgres_md5", CryptContext(["postgres_md5", "unix_disabled"])),
+        ("needs-user.oracle10", CryptContext(["oracle10", "md5_crypt"])),
+        ("needs-user.msdcc2", CryptContext(["msdcc2", "unix_disabled"])),
+        ("truncate-error.des_crypt", CryptContext(["des_crypt", "unix_disabled"], des_crypt__truncate_error=True)),
+        ("truncate-error.bcrypt", CryptContext(["bcrypt", "unix_disabled"], bcrypt__truncate_error=True, bcrypt__rounds=4)),
+        ("user-optional.cisco_pix", CryptContext(["cisco_pix", "unix_disabled"])),
     ]
     allctx = [(a, b) for a, b, _ in ctxs] + extra
     for label, ctx in allctx:
+        klass = ":default-" + label.split(".")[0] if label.split(".")[0] in ("needs-user", "truncate-error") else ""
         ctx = ctx.copy()  # never patch the shipped objects
         if label.split(".")[0] in ("hosts", "apps") and tier == "quick":
             # cheap copy so that the dummy hash does not cost default rounds; same scheme list and default
@@ -374,15 +383,15 @@ def build(tier, rng):
                 o = outcome(getattr(ctx, meth), pw, None)
                 w = {"context": label, "schemes": list(ctx.schemes()), "call": meth, "password": repr(pw)}
                 g.case((label, meth, repr(pw)))
-                g.check(o == ("ok", want), f"missing:{meth}:result", "verification against a missing hash is not False", dict(w, outcome=repr(o)))
-                g.check(len(calls) == 1, f"missing:{meth}:dummy", "dummy_verify not called exactly once", dict(w, calls=len(calls)))
+                g.check(o == ("ok", want), f"missing:{meth}:result{klass}", "verification against a missing hash is not False", dict(w, outcome=repr(o)))
+                g.check(len(calls) == 1, f"missing:{meth}:dummy{klass}", "dummy_verify not called exactly once", dict(w, calls=len(calls)))
                 real = [h for h in seen if h is not None]
                 ok = len(real) == 1 and isinstance(real[0], str) and outcome(ctx.identify, real[0]) == ("ok", default[1])
-                g.check(ok, f"missing:{meth}:cost", "no dummy verification against a hash of the default scheme was performed", dict(w, default=default[1], verified_against=real))
+                g.check(ok, f"missing:{meth}:cost{klass}", "no dummy verification against a hash of the default scheme was performed", dict(w, default=default[1], verified_against=real))
         calls.clear()
         o = outcome(ctx.dummy_verify)
         g.case((label, "dummy_verify"))
-        g.check(o == ("ok", False), "dummy:result", "dummy_verify() does not return False", {"context": label, "outcome": repr(o)})
+        g.check(o == ("ok", False), f"dummy:result{klass}", "dummy_verify() does not return False", {"context": label, "outcome": repr(o)})
     groups.append(done(g))
     host["disabled_default_marker"] = H.unix_disabled.default_marker
     return groups, sorted(set(skipped)), host
